@@ -440,7 +440,7 @@ pub trait EqNo<T> {
 impl<T> EqNo<T> for EqTag<T> {}
 
 /// Per-concrete-type capabilities, implemented by macro below.
-pub trait Subject: Clone + Debug + Send + Sync + 'static {
+pub trait Subject: Clone + Debug + Send + 'static {
     fn type_label() -> &'static str;
     fn eq_opt(&self, other: &Self) -> Option<bool>;
     fn serde_rt(&self) -> Option<RoundTrip<Self>>;
@@ -488,7 +488,8 @@ impl_subject!(
 
 // ---------------------------------------------------------------------------------------------
 
-pub trait Sampler: Send + Sync {
+/// (only `Send` is required of the library's types: a value is never shared between threads, it is cloned)
+pub trait Sampler: Send {
     fn sample_v(&self, rng: &mut VRng) -> Val;
     /// bulk sampling on the fast path (scalar outputs only; u64 is rounded to f64)
     fn fill(&self, rng: &mut BaseRng, out: &mut [f64]);
@@ -599,7 +600,7 @@ where
     Box::new(Wrap::<D, T> { d, _t: PhantomData, dirty: None, repr: None })
 }
 
-fn bx_alias<W: rand_distr::weighted::AliasableWeight + Debug + Send + Sync + 'static>(d: WeightedAliasIndex<W>) -> Box<dyn Sampler>
+fn bx_alias<W: rand_distr::weighted::AliasableWeight + Debug + Send + 'static>(d: WeightedAliasIndex<W>) -> Box<dyn Sampler>
 where
     WeightedAliasIndex<W>: Distribution<usize> + Subject,
 {
